@@ -3,13 +3,14 @@ and the verified feasibility checker `isFeasible` of Solvor/Lp."""
 from __future__ import annotations
 
 import json
+import time
 import warnings
 
 import core
 from core import Driver, rat
 from pool import err_kind, run_pool
-from props.lp_common import (RecCtx, enc_mat, enc_num, enc_point, enc_vec, finite, lp_candidates, shrink,
-                              write_min)
+from props.lp_common import (CANDIDATE_SECONDS, LIMITS, RecCtx, enc_mat, enc_num, enc_point, enc_vec, finite,
+                              lp_candidates, note_dropped, safe_run, shrink, write_min)
 
 AREAS = ["Lp"]
 LEVEL = "proof"
@@ -706,27 +707,49 @@ def judge(ctx, case, out, reply):
                                  "default_run": base, "oracle": [kind, (str(V) if V is not None else None), box]})
 
 
-def run_cases(ctx, cases):
-    """returns the list of (function, class, case) that failed"""
-    raw = run_pool(impl, cases, timeout=120.0)
+def run_cases(ctx, cases, shrink_mode=False):
+    """Runs the implementation (worker pool, per-case wall-clock limit) and the model (driver processes with a
+    timeout; batches that time out are retried in small pieces, then dropped with a note) on `cases` and judges them.
+    Returns the list of (function, class, case) that failed.  `shrink_mode`: candidates of the shrinker – 5 s per
+    candidate for the implementation and for the model, small mirror node cap, small oracle box."""
+    lim = LIMITS[getattr(ctx, "tier", "quick")]
+    pool_t = CANDIDATE_SECONDS if shrink_mode else lim["pool"]
+    node_cap = 2000 if shrink_mode else lim["mirror_nodes"]
+    raw = run_pool(impl, cases, timeout=pool_t)
     outs = [("ok", o[1]["runs"]) if o[0] == "ok" else o for o in raw]
     filts = [o[1]["filter"] if o[0] == "ok" else [] for o in raw]
     dets = [o[1]["detbin"] if o[0] == "ok" else [] for o in raw]
     reqs, owner = [], []
     for ci, (c, o) in enumerate(zip(cases, outs)):
-        reqs.append(to_request(c, o, filts[ci])); owner.append((ci, None))
-        if dets[ci]:
+        rq = to_request(c, o, filts[ci])
+        if shrink_mode:
+            rq[8] = 500            # oracle box limit
+        reqs.append(rq); owner.append((ci, None))
+        if dets[ci] and not shrink_mode:
             reqs.append(["detbin", rat(EPS), [[enc_mat(A2), enc_vec(b2), list(i2), n2]
                                               for _, A2, b2, i2, n2, _ in dets[ci]]])
             owner.append((ci, "detbin"))
         for k, rq in bnb_requests(c, o):
+            rq[8] = min(rq[8], node_cap)      # mirror max_nodes: the mirror's cost stays bounded
             reqs.append(rq); owner.append((ci, k))
-    replies = Driver("Lp").run(reqs, chunks=16)
+    if shrink_mode:
+        parts = {}
+        for i, (ci, _) in enumerate(owner):
+            parts.setdefault(ci, []).append(i)
+        replies, dropped = safe_run(reqs, CANDIDATE_SECONDS, parts=list(parts.values()), retry=False)
+    else:
+        replies, dropped = safe_run(reqs, lim["drv"])
+        note_dropped(ctx, dropped, "C04")
     failed = []
     orig_fail = ctx.fail
+    lost = {ci for (ci, k), rp in zip(owner, replies) if rp is None and k is None}
     for (ci, k), rp in zip(owner, replies):
         c, o = cases[ci], outs[ci]
+        if rp is None or ci in lost:
+            continue                           # no model answer within the time limit: no verdict on this case
         if rp and rp[0] == "error":
+            if shrink_mode:
+                continue
             raise core.Infra(f"model rejected request: {rp} for {c}")
 
         def rec(function, klass, what, replay, no_input=False, _c=c):
@@ -739,6 +762,8 @@ def run_cases(ctx, cases):
                 judge_filter(ctx, c, filts[ci], rp[3])
             elif k == "detbin":
                 judge_detbin(ctx, c, dets[ci], rp)
+            elif rp[3] >= node_cap and int(c["configs"][k].get("max_nodes", DEFAULT_MAX_NODES)) > node_cap:
+                ctx.count("mirror_node_cap_reached")     # the mirror was cut off: no R_trace on this run
             else:
                 judge_trace(ctx, c, c["configs"][k], o[1][k], rp)
         finally:
@@ -758,28 +783,28 @@ def milp_candidates(case):
     yield from lp_candidates(case, int_key="integers")
 
 
-def fails_batch(target):
+def fails_batch(target, tier):
     def run(cands):
+        rc = RecCtx(tier)
         try:
-            failed = run_cases(RecCtx(), cands)
-        except Exception:  # noqa: BLE001 - e.g. a candidate the model rejects: evaluate one by one
+            failed = run_cases(rc, cands, shrink_mode=True)
+        except Exception:  # noqa: BLE001 - a batch that cannot be evaluated keeps nothing
             failed = []
-            for cand in cands:
-                try:
-                    failed += run_cases(RecCtx(), [cand])
-                except Exception:  # noqa: BLE001
-                    pass
         return [any(f == target[0] and k == target[1] and c is cand for f, k, c in failed) for cand in cands]
     return run
 
 
 def shrink_failures(ctx, failed, limit=2):
+    """minimise the first failing input of at most `limit` distinct (function, class) pairs within the run's
+    shrink budget (LIMITS[tier]['shrink_total'] seconds in all)"""
+    deadline = time.time() + LIMITS[ctx.tier]["shrink_total"]
     seen = set()
     for function, klass, case in failed:
-        if (function, klass) in seen or len(seen) >= limit:
+        if (function, klass) in seen or len(seen) >= limit or time.time() > deadline:
             continue
         seen.add((function, klass))
-        small, hist = shrink(case, milp_candidates, fails_batch((function, klass)), max_rounds=60, max_seconds=40.0)
+        small, hist = shrink(case, milp_candidates, fails_batch((function, klass), ctx.tier), max_rounds=60,
+                             max_seconds=LIMITS[ctx.tier]["shrink_total"] / 2, deadline=deadline)
         write_min(ctx, "C04", function, klass, small, hist)
 
 
@@ -803,8 +828,13 @@ def add_max_iter_configs(ctx, cases):
     nodes runs dry after a few of them"""
     reqs = [["bnb", enc_vec(c["c"]), enc_mat(c["A"]), enc_vec(c["b"]), sorted(c["integers"]), bool(c["minimize"]),
              rat(EPS), DEFAULT_MAX_ITER, DEFAULT_MAX_NODES, rat(GAP_TOL), 1, None] for c in cases]
-    replies = Driver("Lp").run(reqs, chunks=16)
+    for rq in reqs:
+        rq[8] = LIMITS[ctx.tier]["mirror_nodes"]
+    replies, dropped = safe_run(reqs, LIMITS[ctx.tier]["drv"])
+    note_dropped(ctx, dropped, "C04 max_iter pre-pass")
     for c, rp in zip(cases, replies):
+        if rp is None:
+            continue
         if rp and rp[0] == "error":
             raise core.Infra(f"model rejected request: {rp} for {c}")
         nodes, lp_it = rp[3], rp[7]
@@ -830,9 +860,23 @@ def run(ctx, budget):
     if ctx.tier == "thorough":
         for t in range(3):       # spread over the request list so that they land in different driver processes
             cases.insert((t * len(cases)) // 3, gen_big_knapsack(ctx.rng))
-    failed = run_cases(ctx, cases)
-    if failed and not getattr(ctx, "seed_shift", 0):
-        shrink_failures(ctx, failed)
+    # slices: after the first slice with a confirmed failure (and its shrink) the rest of the generated cases is not
+    # run, so that a violating run ends quickly; a clean run goes through all slices
+    k = LIMITS[ctx.tier]["slices"]
+    size = (len(cases) + k - 1) // k
+    ctx.rng.shuffle(cases)          # every slice sees every family
+    for t in range(k):
+        part = cases[t * size:(t + 1) * size]
+        if not part:
+            continue
+        failed = run_cases(ctx, part)
+        if failed:
+            if not getattr(ctx, "seed_shift", 0):
+                shrink_failures(ctx, failed)
+            if t + 1 < k:
+                ctx.notes.append(f"stopped after slice {t + 1}/{k}: a failure was confirmed, the remaining "
+                                 f"{len(cases) - (t + 1) * size} generated cases were not run")
+            break
 
 
 def replay(ctx, body):
